@@ -23,10 +23,9 @@ ANCHORS = [
     "asphalt.core._context:Context.get_resource",
 ]
 RULE = (
+    "the histories of C02-C04 (mixed weights, 10% invalid calls) with a listener on every context. "
     "Every second context has a clogged listener (queue of 1, never read) subscribed before the real one; all received events are re-read at the end of the history (identity, source, fields). "
-    "the histories of C02-C04 (mixed weights, 10% invalid calls) with a listener on every context. Non-trivial: >= 3 contexts and > 3 "
-    "model states; distinct = (tree shape, set of model-state hashes). The event of a component-remapped default name is checked by C14."
-)
+    "Non-trivial: >= 3 contexts and > 3 ")
 DECIDING = {
     "events_expected": "events predicted by the model and matched against the dispatch log",
     "failed_adds": "failing adds (must be silent)",
